@@ -60,27 +60,51 @@ Proof. exact deleted_stay_deleted. Qed.
 Print Assumptions C19_deleted_stay_deleted.
 
 (* Delete issued by another goroutine while a flush / periodic sync is running.
-   Repaired code (Delete takes the store mutex, lk = true): still deleted afterwards. *)
-Theorem C19_deleted_race_locked : forall n owner s ord k0 X pl s' r ops2,
-  Inv n owner s ->
-  step n true s (OFlush ord [(k0, [FDelete (owner X) X])] pl) = (s', (r, [ROk])) ->
+   Repaired code (Delete takes the store mutex, lk_del lk = true): still deleted afterwards. *)
+Theorem C19_deleted_race_locked : forall n lk owner s ord k0 X pl s' r ops2,
+  lk_del lk = true -> Inv n owner s ->
+  step n lk s (OFlush ord [(k0, [FDelete (owner X) X])] pl) = (s', (r, [ROk])) ->
   Forall (no_save X) ops2 ->
-  Gone X (api (run_state n true s' ops2)) (loc (sto (run_state n true s' ops2))).
+  Gone X (api (run_state n lk s' ops2)) (loc (sto (run_state n lk s' ops2))).
 Proof. exact deleted_race_locked. Qed.
 Print Assumptions C19_deleted_race_locked.
 
-(* Code before the repair (lk = false): the flush re-creates the condition after the acknowledged
+(* Code before the repair (no locks): the flush re-creates the condition after the acknowledged
    Delete; the store no longer has it, the API does, and the next holder of the shard loads it. *)
 Theorem C19_deleted_race_refuted :
-  let s := run_state 1 false (init []) (firstn 2 race_ops) in
+  let s := run_state 1 nolocks (init []) (firstn 2 race_ops) in
   exists s' r,
-    step 1 false s (OFlush [("a", "a.g1")] [(("a", "a.g1"), [FDelete "a" "a.g1"])] [])%string = (s', (r, [ROk]))
+    step 1 nolocks s (OFlush [("a", "a.g1")] [(("a", "a.g1"), [FDelete "a" "a.g1"])] [])%string = (s', (r, [ROk]))
     /\ alookup String.eqb "a.g1"%string (api s') = Some (mkBody "a" 1 2 3)
     /\ alookup key_eqb ("a", "a.g1")%string (loc (sto s')) = None
-    /\ alookup key_eqb ("a", "a.g1")%string (loc (sto (run_state 1 false s' [ORestart 0 false; OLoad OOk])))
+    /\ alookup key_eqb ("a", "a.g1")%string (loc (sto (run_state 1 nolocks s' [ORestart 0 false; OLoad OOk])))
        = Some (mkBody "a" 1 2 3).
 Proof. exact deleted_race_refuted. Qed.
 Print Assumptions C19_deleted_race_refuted.
+
+(* Write-through Save issued by another goroutine while a flush is running (Stop / Flush racing a
+   report).  Repaired code (a write-through Save takes the store mutex): what was acknowledged is what
+   the API holds when both have returned. *)
+Theorem C19_save_race_locked : forall n lk s ord k0 c pl s' r,
+  lk_save lk = true -> wt (sto s) = true ->
+  step n lk s (OFlush ord [(k0, [FSave c])] pl) = (s', (r, [ROk])) ->
+  exists b, alookup String.eqb (fst c) (api s') = Some b /\ content_eqb b (snd c) = true.
+Proof. exact save_race_locked. Qed.
+Print Assumptions C19_save_race_locked.
+
+(* Before that repair: the flush overwrites the acknowledged version 2 with the version 1 it listed;
+   the store holds 2, the API holds 1, the next holder of the shard loads 1. *)
+Theorem C19_save_race_refuted :
+  let lk := mkLocks true false in
+  let c1 := ("a.g1", mkBody "a" 1 1 1)%string in let c2 := ("a.g1", mkBody "a" 2 2 2)%string in
+  let s := run_state 1 lk (init []) [ORestart 0 true; OFg (FSave c1) []] in
+  exists s' r,
+    step 1 lk s (OFlush [("a", "a.g1")] [(("a", "a.g1"), [FSave c2])] [])%string = (s', (r, [ROk]))
+    /\ alookup String.eqb "a.g1"%string (api s') = Some (snd c1)
+    /\ alookup key_eqb ("a", "a.g1")%string (loc (sto s')) = Some (snd c2)
+    /\ alookup key_eqb ("a", "a.g1")%string (loc (sto (run_state 1 lk s' [ORestart 0 true; OLoad OOk]))) = Some (snd c1).
+Proof. exact save_race_refuted. Qed.
+Print Assumptions C19_save_race_refuted.
 
 (* cited by C13: Save refuses a condition of another shard (nothing changes), and a store only ever
    holds conditions of its own shard — through Load and every other operation *)
@@ -120,9 +144,9 @@ Example C19_nonvacuous :
               OStop [("a", "a.g2"); ("a", "a.g1")] [];
               OFg (FDelete "a" "a.g1") [("a.g1", [OConflict; OOk])];
               ORestart 0 true; OLoad OOk]%string in
-  map (fun x => fst (fst (fst x))) (run 1 true (init []) ops)
+  map (fun x => fst (fst (fst x))) (run 1 (mkLocks true true) (init []) ops)
     = [ROk; ROk; RCrash; ROk; ROk; ROk; RErr; ROk; ROk; ROk; ROk]
-  /\ map fst (api (run_state 1 true (init []) ops)) = ["a.g2"%string]
+  /\ map fst (api (run_state 1 (mkLocks true true) (init []) ops)) = ["a.g2"%string]
   /\ Inv 1 (fun _ => "a"%string) (init [])
   /\ Forall (wf_op (fun _ => "a"%string)) ops.
 Proof.
